@@ -7,6 +7,7 @@ package editops
 import (
 	"encoding/binary"
 	"fmt"
+	"regexp"
 	"strings"
 
 	. "verifharness/common"
@@ -46,6 +47,84 @@ func uiName(s *uefigen.Sec) (string, bool) {
 
 func ciEq(a, b string) bool { return strings.EqualFold(a, b) }
 
+// ---------- compressed sections of the specs (generator side) ----------
+
+// Enc is the codec oracle (set by the executor: fiano's real encoders, as in C06); an image built
+// with it is a fixed point of Save.
+var Enc uefigen.Enc
+
+type compInfo struct {
+	Kind int
+	Kids []*uefigen.Sec
+}
+
+// comp remembers the children of the compressed GUID-defined sections the generator built
+// (uefigen.Sec itself only carries the compressed payload).
+var comp = map[*uefigen.Sec]*compInfo{}
+
+// NewCompressed builds a compressed section (attribute word 1 = processing required) around kids.
+func NewCompressed(kind int, kids []*uefigen.Sec) *uefigen.Sec {
+	s, err := uefigen.CompressedSec(kind, kids, Enc, nil, 1)
+	if err != nil || s == nil {
+		return &uefigen.Sec{Type: 0x19, Body: []byte{1}}
+	}
+	comp[s] = &compInfo{Kind: kind, Kids: kids}
+	return s
+}
+
+func recompress(s *uefigen.Sec) {
+	if ci := comp[s]; ci != nil {
+		if c, err := Enc(ci.Kind, uefigen.JoinSecs(ci.Kids)); err == nil {
+			s.Body = c
+		}
+	}
+}
+
+// owned calls fn on every section the file owns: its sections and, through compressed sections,
+// their children (not the sections of files of a nested volume).
+func owned(secs []*uefigen.Sec, fn func(s *uefigen.Sec)) {
+	for _, s := range secs {
+		fn(s)
+		if ci := comp[s]; ci != nil {
+			owned(ci.Kids, fn)
+		}
+	}
+}
+
+func hasCompressed(f *uefigen.File) bool {
+	r := false
+	owned(f.Secs, func(s *uefigen.Sec) {
+		if comp[s] != nil {
+			r = true
+		}
+	})
+	return r
+}
+
+// RegionHasCompressed: does any file of the region hold a compressed section
+func RegionHasCompressed(reg *uefigen.Region) bool {
+	r := false
+	var walk func(v *uefigen.Vol)
+	walk = func(v *uefigen.Vol) {
+		for _, f := range v.Files {
+			if hasCompressed(f) {
+				r = true
+			}
+			for _, s := range f.Secs {
+				if s.Vol != nil {
+					walk(s.Vol)
+				}
+			}
+		}
+	}
+	for _, e := range reg.Elems {
+		if e.Vol != nil {
+			walk(e.Vol)
+		}
+	}
+	return r
+}
+
 // ---------- abstract rendering of a spec (must agree with reader.go's AbsVolume) ----------
 
 func isFFS(v *uefigen.Vol) bool { return v.FSGUID == uefigen.FFS2 || v.FSGUID == uefigen.FFS3 }
@@ -66,26 +145,35 @@ func AbsVolSpec(v *uefigen.Vol) string {
 			continue
 		}
 		sb.WriteString("{")
-		for _, s := range f.Secs {
-			switch {
-			case s.Vol != nil:
-				fmt.Fprintf(&sb, "S(17,%s)", AbsVolSpec(s.Vol))
-			case s.Type == 0x02:
-				var b []byte
-				b = append(b, s.GUID[:]...)
-				b = binary.LittleEndian.AppendUint16(b, uint16(24+len(s.GDExtra)))
-				b = binary.LittleEndian.AppendUint16(b, s.GDAttrs)
-				b = append(b, s.GDExtra...)
-				b = append(b, s.Body...)
-				fmt.Fprintf(&sb, "S(2,%x)", b)
-			default:
-				fmt.Fprintf(&sb, "S(%x,%x)", s.Type, s.Body)
-			}
-		}
+		absSecsSpec(&sb, f.Secs)
 		sb.WriteString("}")
 	}
 	sb.WriteString("]")
 	return sb.String()
+}
+
+func absSecsSpec(sb *strings.Builder, secs []*uefigen.Sec) {
+	for _, s := range secs {
+		switch {
+		case s.Vol != nil:
+			fmt.Fprintf(sb, "S(17,%s)", AbsVolSpec(s.Vol))
+		case comp[s] != nil:
+			// a compressed section is rendered by what it decodes to, not by the compressed bytes
+			sb.WriteString("Z(")
+			absSecsSpec(sb, comp[s].Kids)
+			sb.WriteString(")")
+		case s.Type == 0x02:
+			var b []byte
+			b = append(b, s.GUID[:]...)
+			b = binary.LittleEndian.AppendUint16(b, uint16(24+len(s.GDExtra)))
+			b = binary.LittleEndian.AppendUint16(b, s.GDAttrs)
+			b = append(b, s.GDExtra...)
+			b = append(b, s.Body...)
+			fmt.Fprintf(sb, "S(2,%x)", b)
+		default:
+			fmt.Fprintf(sb, "S(%x,%x)", s.Type, s.Body)
+		}
+	}
 }
 
 func AbsRegionSpec(reg *uefigen.Region) string {
@@ -110,7 +198,20 @@ type specMatch struct {
 
 // findSpec lists what a text selects: volumes by name (fvp), files by GUID text or by the name of
 // a UI section they own; or (byType >= 0) files of that type.
-func findSpec(reg *uefigen.Region, target string, fvp bool, byType int) []specMatch {
+// Matcher of an operation's argument: a literal is compared case-insensitively, a pattern must
+// match the whole text (Go regexp on `(?i)^(?:r)$`, evaluated here and nowhere in fiano).
+func matcherOf(target string, re bool) func(string) bool {
+	if !re {
+		return func(t string) bool { return ciEq(t, target) }
+	}
+	rx, err := regexp.Compile("(?i)^(?:" + target + ")$")
+	if err != nil {
+		return func(string) bool { return false }
+	}
+	return rx.MatchString
+}
+
+func findSpec(reg *uefigen.Region, match func(string) bool, fvp bool, byType int) []specMatch {
 	var ms []specMatch
 	var walk func(v *uefigen.Vol, top int)
 	walk = func(v *uefigen.Vol, top int) {
@@ -119,7 +220,7 @@ func findSpec(reg *uefigen.Region, target string, fvp bool, byType int) []specMa
 			if v.ExtHeader {
 				name = v.ExtName
 			}
-			if ciEq(GuidText(name), target) {
+			if match(GuidText(name)) {
 				ms = append(ms, specMatch{vol: v, top: top})
 			}
 		}
@@ -131,12 +232,12 @@ func findSpec(reg *uefigen.Region, target string, fvp bool, byType int) []specMa
 			if byType >= 0 {
 				hit = int(f.Type) == byType
 			} else {
-				hit = ciEq(GuidText(f.GUID), target)
-				for _, s := range f.Secs {
-					if n, ok := uiName(s); ok && ciEq(n, target) {
+				hit = match(GuidText(f.GUID))
+				owned(f.Secs, func(s *uefigen.Sec) {
+					if n, ok := uiName(s); ok && match(n) {
 						hit = true
 					}
-				}
+				})
 			}
 			if hit {
 				ms = append(ms, specMatch{vol: v, file: f, idx: i, top: top, isFile: true})
@@ -173,9 +274,9 @@ func ApplySpec(reg *uefigen.Region, o EOp, touched map[int]bool) bool {
 		it := strings.TrimPrefix(o.It, "g")
 		var ms []specMatch
 		if it == "dxe" {
-			ms = findSpec(reg, "", false, 5)
+			ms = findSpec(reg, nil, false, 5)
 		} else {
-			ms = findSpec(reg, o.Target, true, -1)
+			ms = findSpec(reg, matcherOf(o.Target, false), true, -1)
 		}
 		if len(ms) != 1 {
 			return false
@@ -212,7 +313,7 @@ func ApplySpec(reg *uefigen.Region, o EOp, touched map[int]bool) bool {
 		return true
 	case "rm":
 		drop := map[*uefigen.File]bool{}
-		for _, m := range findSpec(reg, o.Target, false, -1) {
+		for _, m := range findSpec(reg, matcherOf(o.Target, o.Re), false, -1) {
 			drop[m.file] = true
 		}
 		var walk func(v *uefigen.Vol, top int)
@@ -244,15 +345,26 @@ func ApplySpec(reg *uefigen.Region, o EOp, touched map[int]bool) bool {
 		if len(o.Data) < 2 || o.Data[0] != 'M' || o.Data[1] != 'Z' {
 			return false
 		}
-		ms := findSpec(reg, o.Target, false, -1)
+		ms := findSpec(reg, matcherOf(o.Target, o.Re), false, -1)
 		if len(ms) != 1 {
 			return false
 		}
-		for _, s := range ms[0].file.Secs {
+		// every PE32 section the file owns, also inside compressed sections (which are re-encoded)
+		owned(ms[0].file.Secs, func(s *uefigen.Sec) {
 			if s.Type == 0x10 {
 				s.Body = append([]byte{}, o.Data...)
 			}
+		})
+		var fix func(secs []*uefigen.Sec)
+		fix = func(secs []*uefigen.Sec) {
+			for _, s := range secs {
+				if ci := comp[s]; ci != nil {
+					fix(ci.Kids)
+					recompress(s)
+				}
+			}
 		}
+		fix(ms[0].file.Secs)
 		touched[ms[0].top] = true
 		return true
 	}
@@ -304,7 +416,8 @@ func poolGUID(i int) [16]byte {
 	return g
 }
 
-var namePool = []string{"Shell", "DxeCore", "AAA", "Setup9", "b_2"}
+// names that are prefixes, suffixes and infixes of each other (selection must be by the whole name)
+var namePool = []string{"Shell", "ShellFull", "Fat", "EnhancedFat", "AShellB", "DxeCore", "Setup9", "b_2"}
 var volNames = [][16]byte{{0xA1, 2, 3, 4, 5, 6, 7, 8, 9, 10, 11, 12, 13, 14, 15, 0xEE}, {0xB2, 9, 9, 9, 9, 9, 9, 9, 9, 9, 9, 9, 9, 9, 9, 0xDD}}
 
 func smallBody(r *Rng) []byte { return r.Bytes(r.Pick(0, 1, 4, 5, 16, 33)) }
@@ -359,7 +472,37 @@ func GenFileSpec(r *Rng, depth, maxDepth int, aligned bool) *uefigen.File {
 	if nested {
 		f.Secs = append(f.Secs, &uefigen.Sec{Type: 0x17, Vol: GenVolSpec(r, depth+1, maxDepth, false)})
 	}
+	if Compressed && Enc != nil && r.Chance(1, 4) {
+		f.Secs = append(f.Secs, genCompressed(r))
+	}
 	return f
+}
+
+// Compressed switches the generation of compressed sections on (off for files to insert: the model
+// would need their decoding at ParseCLI time).
+var Compressed = true
+
+// Patterns switches regular-expression arguments on for remove / remove_pad / replace_pe32.
+var Patterns = true
+
+// genCompressed: an LZMA or ZLIB section around 3..5 leaf sections whose sizes are mostly not
+// multiples of 4 (so that every inner padding matters), among them PE32 and UI sections.
+func genCompressed(r *Rng) *uefigen.Sec {
+	n := r.Range(3, 5)
+	var kids []*uefigen.Sec
+	for i := 0; i < n; i++ {
+		k := &uefigen.Sec{}
+		switch r.Intn(5) {
+		case 0:
+			k.Type, k.Body = 0x10, append([]byte("MZ"), r.Bytes(r.Pick(0, 1, 3, 7))...)
+		case 1:
+			k.Type, k.Body = 0x15, ucs2(namePool[r.Intn(len(namePool))])
+		default:
+			k.Type, k.Body = byte(r.Pick(0x19, 0x12, 0x19)), r.Bytes(r.Pick(1, 1, 2, 3, 4, 5, 9))
+		}
+		kids = append(kids, k)
+	}
+	return NewCompressed(r.Pick(1, 3, 3), kids)
 }
 
 func GenVolSpec(r *Rng, depth, maxDepth int, aligned bool) *uefigen.Vol {
@@ -456,10 +599,12 @@ func present(reg *uefigen.Region) (files, vols []string) {
 		}
 		for _, f := range v.Files {
 			files = append(files, GuidText(f.GUID))
-			for _, s := range f.Secs {
+			owned(f.Secs, func(s *uefigen.Sec) {
 				if n, ok := uiName(s); ok {
 					files = append(files, n)
 				}
+			})
+			for _, s := range f.Secs {
 				if s.Vol != nil {
 					walk(s.Vol)
 				}
@@ -482,7 +627,7 @@ func genTarget(r *Rng, reg *uefigen.Region, forInsert, unique bool) string {
 	if unique && r.Chance(4, 5) {
 		var u []string
 		for _, t := range files {
-			if len(findSpec(reg, t, forInsert, -1)) == 1 {
+			if len(findSpec(reg, matcherOf(t, false), forInsert, -1)) == 1 {
 				u = append(u, t)
 			}
 		}
@@ -505,13 +650,55 @@ func genTarget(r *Rng, reg *uefigen.Region, forInsert, unique bool) string {
 	return randCase(r, GuidText(poolGUID(1+r.Intn(6))))
 }
 
+// genPattern builds a regular expression with metacharacters over the texts of the image: an
+// alternation of two texts, a prefix with ".*", or a group with an alternation in front of a
+// common tail. None of them matches the empty text (every non-UI section has an empty name).
+func genPattern(r *Rng, reg *uefigen.Region) (string, []string) {
+	files, _ := present(reg)
+	pick := func() string {
+		if len(files) > 0 && r.Chance(3, 4) {
+			return files[r.Intn(len(files))]
+		}
+		return namePool[r.Intn(len(namePool))]
+	}
+	var pat string
+	switch r.Intn(4) {
+	case 0, 1:
+		pat = pick() + "|" + pick()
+	case 2:
+		t := pick()
+		pat = t[:1+r.Intn(len(t))] + ".*"
+	default:
+		t := pick()
+		k := 1 + r.Intn(len(t))
+		pat = "(" + t[:k] + "|Zz)" + t[k:]
+	}
+	pat = randCase(r, pat)
+	m := matcherOf(pat, true)
+	if m("") {
+		return GuidText(poolGUID(1)), nil
+	}
+	seen := map[string]bool{}
+	var set []string
+	for _, t := range files {
+		if m(t) && !seen[t] {
+			seen[t] = true
+			set = append(set, t)
+		}
+	}
+	return pat, set
+}
+
 var insKinds = []string{"front", "end", "after", "before", "replace", "front", "end", "after", "before", "replace",
 	"gfront", "gend", "gafter", "gbefore", "dxe"}
 
 func GenOp(r *Rng, reg *uefigen.Region, maxDepth int) EOp {
 	switch k := r.Intn(10); {
 	case k <= 3:
+		saved := Compressed
+		Compressed = false
 		f := GenFileSpec(r, 0, maxDepth, r.Chance(1, 2))
+		Compressed = saved
 		o := EOp{Kind: "ins", It: insKinds[r.Intn(len(insKinds))], Target: genTarget(r, reg, true, true), Spec: f, Data: EmitFile(f)}
 		if o.It == "dxe" {
 			o.Target = ""
@@ -523,11 +710,19 @@ func GenOp(r *Rng, reg *uefigen.Region, maxDepth int) EOp {
 		}
 		return o
 	case k <= 6:
+		if Patterns && r.Chance(1, 4) {
+			pat, set := genPattern(r, reg)
+			return EOp{Kind: "rm", Pad: r.Chance(2, 5), Target: pat, Re: set != nil || strings.ContainsAny(pat, "|.("), Match: set}
+		}
 		return EOp{Kind: "rm", Pad: r.Chance(2, 5), Target: genTarget(r, reg, false, false)}
 	default:
 		pe := peBody(r)
 		if r.Chance(1, 10) {
 			pe = r.Bytes(r.Pick(0, 1, 5))
+		}
+		if Patterns && r.Chance(1, 5) {
+			pat, set := genPattern(r, reg)
+			return EOp{Kind: "pe", Target: pat, Re: set != nil || strings.ContainsAny(pat, "|.("), Match: set, Data: pe}
 		}
 		return EOp{Kind: "pe", Target: genTarget(r, reg, false, true), Data: pe}
 	}
@@ -547,11 +742,13 @@ type ECase struct {
 	Expect  string
 	Touched string
 	Reg     *uefigen.Region // the spec after the edits (generator side only)
+	Comp    bool            // the image holds compressed sections: the model needs codec tables
 }
 
 func GenCase(r *Rng, maxDepth int, nops int) ECase {
 	reg := GenRegionSpec(r, maxDepth, true)
 	img, _ := uefigen.EmitRegion(reg)
+	hasComp := RegionHasCompressed(reg)
 	var ops []EOp
 	touched := map[int]bool{}
 	errAt := -1
@@ -563,7 +760,7 @@ func GenCase(r *Rng, maxDepth int, nops int) ECase {
 			errAt = i
 		}
 	}
-	c := ECase{Img: img, Ops: ops, Reg: reg}
+	c := ECase{Img: img, Ops: ops, Reg: reg, Comp: hasComp}
 	if AnyBad(ops) {
 		c.Expect, c.Touched = "C", "-"
 	} else if errAt >= 0 {
@@ -587,7 +784,7 @@ func Exhaustive(maxLen int, visit func(c ECase)) {
 		}
 		c := func() *uefigen.File {
 			return &uefigen.File{GUID: poolGUID(3), Type: 9, State: 0xF8, Attr: 1 << 3,
-				Secs: []*uefigen.Sec{{Type: 0x19, Body: []byte{9, 9}}}}
+				Secs: []*uefigen.Sec{{Type: 0x19, Body: []byte{9, 9}}, {Type: 0x15, Body: ucs2("ShellFull")}}}
 		}
 		v0 := &uefigen.Vol{FSGUID: uefigen.FFS2, Attrs: 0x800, Revision: 2, BlockSize: 64, FreeSpace: 100}
 		v1 := &uefigen.Vol{FSGUID: uefigen.FFS2, Attrs: 0x4FEFF, Revision: 2, BlockSize: 64, FreeSpace: 24,
@@ -622,6 +819,7 @@ func Exhaustive(maxLen int, visit func(c ECase)) {
 			ins("after", g3), ins("before", g2), ins("front", GuidText(volNames[0])), ins("end", "SHELL"),
 			ins("replace", g2), ins("gend", GuidText(poolGUID(4))),
 			{Kind: "pe", Target: g1, Data: []byte("MZxyz12")}, {Kind: "pe", Target: g3, Data: []byte("MZ")},
+			{Kind: "rm", Target: "Shell|Fat", Re: true}, {Kind: "rm", Pad: true, Target: "Sh.*", Re: true},
 		}
 	}
 	n := len(alphabet())
@@ -632,11 +830,25 @@ func Exhaustive(maxLen int, visit func(c ECase)) {
 			img, _ := uefigen.EmitRegion(reg)
 			al := alphabet()
 			var ops []EOp
-			for _, i := range seq {
-				ops = append(ops, al[i])
+			touched := map[int]bool{}
+			errAt := -1
+			for k, i := range seq {
+				o := al[i]
+				if o.Re { // the texts the pattern matches in full, on the spec as edited so far
+					o.Match = FullMatches(reg, o.Target)
+				}
+				ops = append(ops, o)
+				if errAt < 0 && !ApplySpec(reg, o, touched) {
+					errAt = k
+				}
 			}
-			e, t := Expect(reg, ops)
-			visit(ECase{Img: img, Ops: ops, Expect: e, Touched: t})
+			c := ECase{Img: img, Ops: ops}
+			if errAt >= 0 {
+				c.Expect, c.Touched = fmt.Sprintf("E%d", errAt), "-"
+			} else {
+				c.Expect, c.Touched = expectOf(reg, touched)
+			}
+			visit(c)
 		}
 		if len(seq) == maxLen {
 			return
@@ -672,9 +884,49 @@ func GenCaseGrammar(r *Rng, nops int) ECase {
 		op := GenOp(r, reg, 0)
 		if !asciiOnly(op.Target) {
 			op.Target = GuidText(poolGUID(1 + r.Intn(6)))
+			op.Re, op.Match = false, nil
 		}
 		ops = append(ops, op)
 		ApplySpec(reg, op, touched)
 	}
 	return ECase{Img: img, Ops: ops}
+}
+
+// FindExpect: the files a pattern selects (GUIDs, as "F:<guid>;" entries sorted), by full match on
+// the spec.
+func FindExpect(reg *uefigen.Region, pat string) string {
+	var es []string
+	for _, m := range findSpec(reg, matcherOf(pat, true), false, -1) {
+		if m.isFile {
+			es = append(es, "F:"+H(m.file.GUID[:])+";")
+		}
+	}
+	sortStrings(es)
+	return strings.Join(es, "")
+}
+
+func sortStrings(a []string) {
+	for i := 1; i < len(a); i++ {
+		for j := i; j > 0 && a[j] < a[j-1]; j-- {
+			a[j], a[j-1] = a[j-1], a[j]
+		}
+	}
+}
+
+// GenPatternFor exposes genPattern to the executors.
+func GenPatternFor(r *Rng, reg *uefigen.Region) (string, []string) { return genPattern(r, reg) }
+
+// FullMatches: the texts of the spec (file GUID texts, UI names) that the pattern matches in full.
+func FullMatches(reg *uefigen.Region, pat string) []string {
+	files, _ := present(reg)
+	m := matcherOf(pat, true)
+	seen := map[string]bool{}
+	var set []string
+	for _, t := range files {
+		if m(t) && !seen[t] {
+			seen[t] = true
+			set = append(set, t)
+		}
+	}
+	return set
 }
